@@ -21,7 +21,7 @@ RULE = (
     "1e-3..1e4 with random signs, rotation in [-720,720] degrees, 4 flag combinations, through both "
     "arc_to_cubic() and SVGPath.arcs_to_cubics() (absolute and relative arcs); boundary classes built on "
     "purpose: radii exactly fitting the chord (antipodal points of the ellipse), barely fitting (x(1+-1e-9), "
-    "x(1+-1e-6)), too small (scaled up), everything in huge units (x1e5..1e9), zero radius, negative radius, coincident endpoints, half-circle chords. "
+    "x(1+-1e-6)), too small (scaled up), everything in huge units (x1e5..1e9), zero radius, negative radius, coincident endpoints, half-circle chords, a relative arc whose offset equals the current point numerically. "
     "Oracle: own centre parameterisation; every cubic is sampled at 9 parameters and each sample must lie within "
     "0.03% of the corrected ellipse in its unit-circle frame, angles must advance monotonically in the sweep "
     "direction, total swept angle must equal the reference delta-theta (1e-6 rad), first point = start, last "
@@ -184,7 +184,7 @@ def _rot():
 
 @st.composite
 def arc_case(draw):
-    kind = draw(st.sampled_from(["random"] * 6 + ["exact", "barely", "tiny-radii", "zero", "negative", "coincident", "half-circle", "near-coincident", "huge-units", "huge-units"]))
+    kind = draw(st.sampled_from(["random"] * 6 + ["exact", "barely", "tiny-radii", "zero", "negative", "coincident", "half-circle", "near-coincident", "huge-units", "huge-units", "delta-equals-start"]))
     via = draw(st.sampled_from(["fn", "fn", "abs", "rel"]))
     large, sweep = draw(st.integers(0, 1)), draw(st.integers(0, 1))
     x1, y1 = draw(_coord()), draw(_coord())
@@ -235,6 +235,13 @@ def arc_case(draw):
         # depends on the unit
         S = draw(st.sampled_from([1e5, 1e6, 1e7, 1e8, 1e9]))
         x1, y1, x2, y2, rx, ry = x1 * S, y1 * S, x2 * S, y2 * S, rx * S, ry * S
+    elif kind == "delta-equals-start":
+        # a relative arc whose offset happens to be numerically equal to the current point (M10,10 a.. 10,10):
+        # absolute and relative numbers must never be compared with each other
+        via = "rel"
+        if x1 == 0 and y1 == 0:
+            x1, y1 = 10.0, 10.0
+        x2, y2 = x1 + x1, y1 + y1
     case = dict(x1=x1, y1=y1, rx=rx, ry=ry, rot=rot, large=large, sweep=sweep, x2=x2, y2=y2, via=via, kind=kind)
     if via == "rel":
         # relative arc: the library computes the end as start + delta in floating point; so does the case
